@@ -83,6 +83,8 @@ ASK = {  # name -> (constructor, uses now, uses elapsed)
     '_calc_sched_beats': ('KSchedBeats', 1, 0),
 }
 SETS = {'tempo': 'OTempo', 'etempo': 'OEtempo', 'beats': 'OBeats', 'meter': 'OMeter'}
+RT_TEMPI = [2, 2, 4, 8, 16]
+RT_METERS = [Fraction(1, 2), 1, 2]
 
 
 def ask_term(act, ev):
@@ -101,57 +103,108 @@ def ask_term(act, ev):
     return '(' + ' '.join(parts) + ')' if len(parts) > 1 else con
 
 
-def play_actions(kind, q, ev):
-    """two observations per play: beat and logical second at which the played routine first ran"""
+def first_play_actions(q, ev):
+    """NRT: the driver's own first run (nothing can change between its play and that run)"""
     now = out_as_num(ev['now'])
-    if 'raised' in ev or 'woke_beats' not in ev:
-        # play raised (negative quant): the model's beat is the error value
-        return ['AAsk (KPlayBeat %s %s) (2, 0, 0)%%Z' % (now, quant_term(q))] if 'raised' in ev else \
-               ['AAsk KTempo (9, 0, 0)%Z']
-    if kind == 'play_next_bar':
-        return ['AAsk (KPlayNextBar %s) %s' % (now, enc_term(ev['woke_beats']))]
+    if 'raised' in ev:
+        return ['AAsk (KPlayBeat %s %s) (2, 0, 0)%%Z' % (now, quant_term(q))]
+    if 'woke_beats' not in ev:
+        return ['AAsk KTempo (9, 0, 0)%Z']
     return ['AAsk (KPlayBeat %s %s) %s' % (now, quant_term(q), enc_term(ev['woke_beats'])),
             'AAsk (KPlaySecs %s %s) %s' % (now, quant_term(q), enc_term(ev['woke_secs']))]
 
 
-def case_term(case, out):
+def rt_first_play_problem(case, out):
+    """RT: the first play is made from the main thread at a physical (inexact) time, so it is not replayed
+    in the model; it must still land on the grid (origin 0) and not before the beat read just before."""
+    ev = out.get('first_play') or {}
+    if 'raised' in ev or 'woke_beats' not in ev or ev['woke_beats'][0] not in (0, 1):
+        return None
+    q, p = quant_pair(case['start_quant'])
+    g = Fraction(int(ev['woke_beats'][1]), int(ev['woke_beats'][2]))
+    if q <= 0:
+        return None
+    b0 = Fraction(int(ev['beats_before'][1]), int(ev['beats_before'][2]))
+    if ((g - p) / q).denominator != 1 or g < b0 or g >= b0 + q + Fraction(1, 4):
+        return 'first play (RT, main thread) with quant=%s phase=%s at beat %s woke at beat %s' % (q, p, float(b0), g)
+    return None
+
+
+def quant_pair(q):
+    if q is None:
+        return Fraction(1), Fraction(0)
+    k = q[0]
+    if k in ('num', 'quant1'):
+        return Fraction(q[1][1]), Fraction(0)
+    if k == 'pair':
+        return Fraction(q[1][1]), Fraction(q[2][1])
+    vals = [Fraction(x[1]) for x in q[1]]
+    return vals[0], (vals[1] if len(vals) > 1 else Fraction(0))
+
+
+def case_term(case, out, rt=False):
     """-> (Gallina term of type option N  (None = agreement), list describing each action)"""
     i = case['init']
     if out.get('error'):
         return 'Some 0%N', ['runner error: ' + out['error']]
     now0 = out_as_num(out['init_now']) if out.get('init_now') else num_term(case['t0'])
+    secs = out_as_num(out['rt_seconds']) if rt else num_term(i['seconds'])
     if isinstance(out['init'], str):                 # constructor raised
-        return ('session_bad %s %s %s %s [] []' % (now0, num_term(i['tempo']), num_term(i['beats']), num_term(i['seconds'])),
+        return ('session_bad %s %s %s %s %s [] []' % ('true' if rt else 'false', now0, num_term(i['tempo']), num_term(i['beats']), secs),
                 ['constructor'])
     acts, desc = [], ['constructor']
-    for a in play_actions('play', case['start_quant'], out['first_play']):
-        acts.append(a)
-        desc.append('first play quant=%s -> %s' % (case['start_quant'], out['first_play']))
+    if not rt:
+        for a in first_play_actions(case['start_quant'], out['first_play']):
+            acts.append(a)
+            desc.append('first play quant=%s -> %s' % (case['start_quant'], out['first_play']))
     flat = [a for st in case['steps'] for a in st['acts']]
-    evs = out['events']
-    for k, act in enumerate(flat):
-        if k >= len(evs):
-            break                                     # the driver died: reported through `complete`
-        ev = evs[k]
+    for ev in out['events']:
+        if 'wake' in ev:
+            acts.append('AWake %d%%N %s %s' % (ev['wake'], enc_term(ev['beats']), enc_term(ev['secs'])))
+            desc.append('wake-up of played routine %s' % ev)
+            continue
+        act = flat[ev['k']]
         if act[0] == 'set':
-            o = '(%s %s %s)' % (SETS[act[1]], out_as_num(ev['elapsed'] if act[1] == 'etempo' else ev['now']), num_term(act[2]))
+            kind = 'beats' if act[1] == 'beats_rel' else act[1]
+            val = out_as_num(ev['value']) if act[1] == 'beats_rel' and 'value' in ev else num_term(act[2])
+            o = '(%s %s %s)' % (SETS[kind], out_as_num(ev['elapsed'] if kind == 'etempo' else ev['now']), val)
             exp = '[]' if 'raised' in ev else state_term(ev['state'])
             acts.append('ASet %s %s' % (o, exp))
-            desc.append('%s -> %s' % (act, ev))
         elif act[0] == 'ask':
-            if 'raised' in ev:
-                exp = '(2, 0, 0)%Z'
+            exp = '(2, 0, 0)%Z' if 'raised' in ev else enc_term(ev['result'])
+            if act[1] == 'grid_rel':
+                k = '(KGridRef %s %s %s)' % (num_term(act[2][0]), num_term(act[2][1]), out_as_num(ev['ref']))
             else:
-                exp = enc_term(ev['result'])
-            acts.append('AAsk %s %s' % (ask_term(act, ev), exp))
-            desc.append('%s -> %s' % (act, ev))
+                k = ask_term(act, ev)
+            acts.append('AAsk %s %s' % (k, exp))
         else:
-            for a in play_actions(act[0], act[1] if len(act) > 1 else None, ev):
-                acts.append(a)
-                desc.append('%s -> %s' % (act, ev))
-    term = 'session_bad %s %s %s %s %s [%s]' % (now0, num_term(i['tempo']), num_term(i['beats']), num_term(i['seconds']),
+            now = out_as_num(ev['now'])
+            q = act[1] if len(act) > 1 else None
+            if 'raised' in ev:
+                acts.append('AAsk (KPlayBeat %s %s) (2, 0, 0)%%Z' % (now, quant_term(q)))
+            elif act[0] == 'play_next_bar':
+                acts.append('APlayNextBar %d%%N %s' % (ev['id'], now))
+            else:
+                acts.append('APlay %d%%N %s %s' % (ev['id'], now, quant_term(q)))
+        desc.append('%s -> %s' % (act, ev))
+    term = 'session_bad %s %s %s %s %s %s [%s]' % ('true' if rt else 'false', now0, num_term(i['tempo']), num_term(i['beats']), secs,
                                              state_term(out['init']), ';\n  '.join(acts))
     return term, desc
+
+
+def incomplete(case, out):
+    """the driver must have made every act and every played routine must have run"""
+    if out.get('error') or not isinstance(out.get('init'), list) or 'raised' in (out.get('first_play') or {}):
+        return None
+    flat = [a for st in case['steps'] for a in st['acts']]
+    done = [e for e in out['events'] if 'k' in e]
+    if len(done) != len(flat):
+        return 'driver routine did not complete: %d of %d acts' % (len(done), len(flat))
+    ids = {e['id'] for e in done if 'id' in e}
+    woke = [e['wake'] for e in out['events'] if 'wake' in e]
+    if sorted(woke) != sorted(ids):
+        return 'played routines %s, woken %s (each must run exactly once)' % (sorted(ids), sorted(woke))
+    return None
 
 
 # ---------------------------------------------------------------------------
@@ -213,9 +266,9 @@ TEMPI = [Fraction(1, 4), Fraction(1, 2), 1, 1, 2, 2, 4, 8]
 METERS = [Fraction(1, 2), 1, 2, 2, 4, 4, 8]
 
 
-def gen_ask(rng, malformed):
+def gen_ask(rng, malformed, rt=False):
     r = rng.random()
-    if r < 0.30:
+    if r < 0.22:
         q, p = gen_quant_phase(rng, valid=not malformed)
         if malformed and rng.random() < 0.3:
             q = -q if rng.random() < 0.6 else Fraction(0)
@@ -226,20 +279,39 @@ def gen_ask(rng, malformed):
                 ref = Fraction(int(ref))     # often exactly on a grid point
             args.append(nm(rng, ref))
         return ['ask', 'next_time_on_grid', args]
-    if r < 0.40:
+    if r < 0.34:
+        # reference beat near the grid origin (base_bar_beat, which a meter change moves off the old grid):
+        # refbeat - base_bar_beat - phase negative, zero, or just positive
+        q, p = gen_quant_phase(rng, valid=True)
+        if p == 0 and rng.random() < 0.7:
+            p = rng.choice([-1, 1]) * q / 4
+        d = rng.choice([p, p - Fraction(1, 8), p + Fraction(1, 8), Fraction(0), -q, p - q, Fraction(-1, 4), p + q,
+                        dy(rng, 3, -3, 3)])
+        return ['ask', 'grid_rel', [nm(rng, q), nm(rng, p), nm(rng, d, allow_int=False)]]
+    if r < 0.42:
         return ['ask', 'time_to_next_beat', [gen_quantarg(rng, malformed)]]
     if r < 0.52:
         return ['ask', 'next_bar', [nm(rng, dy(rng, 2, -20, 60))] if rng.random() < 0.6 else []]
-    name = rng.choice(['beats', 'seconds', 'elapsed_beats', 'beats2secs', 'secs2beats', 'beats2bars', 'bars2beats',
-                       'bar', 'beat_in_bar', 'bar', 'beat_in_bar', 'tempo', 'beat_dur', 'beats_per_bar', 'base_bar',
-                       'base_bar_beat', '_calc_sched_beats'])
+    names = ['beats', 'seconds', 'beats2secs', 'secs2beats', 'beats2bars', 'bars2beats',
+             'bar', 'beat_in_bar', 'bar', 'beat_in_bar', 'tempo', 'beat_dur', 'beats_per_bar', 'base_bar',
+             'base_bar_beat', '_calc_sched_beats']
+    if not rt:
+        names.append('elapsed_beats')      # physical time in RT: not exact
+    name = rng.choice(names)
     if name in ('beats2secs', 'secs2beats', 'beats2bars', 'bars2beats', '_calc_sched_beats'):
         return ['ask', name, [nm(rng, dy(rng, 3, -30, 60))]]
     return ['ask', name, []]
 
 
-def gen_set(rng, malformed):
+def gen_set(rng, malformed, rt=False):
     r = rng.random()
+    if rt:
+        # RT: only what keeps logical times exact and real waiting short: fast tempi, forward beat jumps
+        if r < 0.5:
+            return ['set', 'tempo', nm(rng, rng.choice(RT_TEMPI))]
+        if r < 0.7:
+            return ['set', 'beats_rel', nm(rng, Fraction(rng.randint(0, 16), 8), allow_int=False)]
+        return ['set', 'meter', nm(rng, rng.choice(RT_METERS))]
     if r < 0.35:
         v = rng.choice(TEMPI)
         if malformed and rng.random() < 0.4:
@@ -258,30 +330,43 @@ def gen_set(rng, malformed):
     return ['set', 'meter', nm(rng, v)]
 
 
-def gen_case(rng, malformed=False, nsteps=None):
-    t = rng.choice(TEMPI)
-    init = {'tempo': nm(rng, t) if rng.random() < 0.85 else None,
+def gen_play(rng, malformed, rt=False):
+    if rng.random() < 0.15:
+        return ['play_next_bar']
+    if rt:
+        q = Fraction(rng.choice([Fraction(1, 4), Fraction(1, 2), Fraction(3, 4), 1, 1, Fraction(3, 2)]))
+        p = Fraction(rng.randint(-int(q * 8) + 1, int(q * 8) - 1), 8)
+        return [rng.choice(['play', 'clock_play']), ['pair', nm(rng, q), nm(rng, p)]]
+    return [rng.choice(['play', 'clock_play']), gen_quantarg(rng, malformed and rng.random() < 0.3)]
+
+
+def gen_case(rng, malformed=False, nsteps=None, rt=False):
+    """plays may come anywhere: what happens between a play and its wake-up is part of the replayed session"""
+    t = rng.choice(RT_TEMPI if rt else TEMPI)
+    init = {'tempo': nm(rng, t) if (rt or rng.random() < 0.85) else None,
             'beats': nm(rng, dy(rng, 2, -8, 16)) if rng.random() < 0.6 else None,
             'seconds': nm(rng, dy(rng, 2, 0, 8)) if rng.random() < 0.5 else None}
     if malformed and rng.random() < 0.25:
         init['tempo'] = nm(rng, rng.choice([0, -1, Fraction(-1, 2)]))
-    case = {'t0': nm(rng, dy(rng, 3, 0, 6), allow_int=False), 'init': init,
-            'start_quant': gen_quantarg(rng, malformed and rng.random() < 0.3), 'steps': []}
-    n = nsteps if nsteps is not None else rng.randint(1, 4)
+    if rt:
+        sq = ['pair', nm(rng, rng.choice([Fraction(1, 4), Fraction(1, 2), 1])), nm(rng, Fraction(rng.choice([0, 0, 1, -1]), 8))]
+    else:
+        sq = gen_quantarg(rng, malformed and rng.random() < 0.3)
+    case = {'t0': nm(rng, dy(rng, 3, 0, 6), allow_int=False), 'init': init, 'start_quant': sq, 'steps': []}
+    n = nsteps if nsteps is not None else (rng.randint(2, 3) if rt else rng.randint(1, 4))
     for k in range(n):
         acts = []
         for _ in range(rng.randint(1, 5)):
-            acts.append(gen_set(rng, malformed) if rng.random() < 0.4 else gen_ask(rng, malformed))
-        case['steps'].append({'acts': acts, 'yield': nm(rng, Fraction(rng.randint(0, 24), 8))})
-    # plays only at the very end: nothing changes between a play and the wake-up it is compared with
-    last = case['steps'][-1]
-    last['yield'] = None
-    for _ in range(rng.randint(0, 3)):
-        k = rng.random()
-        if k < 0.15:
-            last['acts'].append(['play_next_bar'])
-        else:
-            last['acts'].append([rng.choice(['play', 'clock_play']), gen_quantarg(rng, malformed and rng.random() < 0.3)])
+            r = rng.random()
+            if r < 0.4:
+                acts.append(gen_set(rng, malformed, rt))
+            elif r < 0.52:
+                acts.append(gen_play(rng, malformed, rt))
+            else:
+                acts.append(gen_ask(rng, malformed, rt))
+        y = Fraction(rng.randint(0, 4), 8) if rt else Fraction(rng.randint(0, 24), 8)
+        case['steps'].append({'acts': acts, 'yield': nm(rng, y)})
+    case['steps'][-1]['yield'] = None
     return case
 
 
@@ -294,13 +379,29 @@ def is_nontrivial(case, out):
     if not isinstance(out.get('init'), list):
         return False
     flat = [a for st in case['steps'] for a in st['acts']]
-    okset = any(a[0] == 'set' and 'raised' not in e for a, e in zip(flat, out['events']))
+    evs = [(flat[e['k']], e) for e in out['events'] if 'k' in e]
+    okset = any(a[0] == 'set' and 'raised' not in e for a, e in evs)
     grid = False
-    for a, e in zip(flat, out['events']):
-        if a[0] == 'ask' and a[1] in ('next_time_on_grid', 'next_bar', 'beat_in_bar', 'bar', 'time_to_next_beat') and 'result' in e \
-                and e['result'][0] in (0, 1):
+    for a, e in evs:
+        if a[0] == 'ask' and a[1] in ('next_time_on_grid', 'grid_rel', 'next_bar', 'beat_in_bar', 'bar', 'time_to_next_beat') \
+                and 'result' in e and e['result'][0] in (0, 1):
             grid = True
     return okset and grid
+
+
+def changes_before_wake(case, out):
+    """number of played routines that woke after at least one successful change made after their play"""
+    flat = [a for st in case['steps'] for a in st['acts']]
+    pending, n = {}, 0
+    for e in out.get('events', []):
+        if 'wake' in e:
+            n += 1 if pending.pop(e['wake'], 0) else 0
+        elif 'id' in e:
+            pending[e['id']] = 0
+        elif flat[e['k']][0] == 'set' and 'raised' not in e:
+            for k in pending:
+                pending[k] += 1
+    return n
 
 
 def diagnose(ctx, term, desc):
@@ -311,6 +412,30 @@ def diagnose(ctx, term, desc):
         return None, o[-500:]
     k = int(m.group(1))
     return k, desc[k] if k < len(desc) else '?'
+
+
+def rt_port(ctx, k=0):
+    return 58200 + (os.getpid() * 17 + ctx.seed * 31 + k * 40) % 1500
+
+
+def tally(c, tagged, out, mode):
+    for (case, tag), o in zip(tagged, out):
+        flat = [a for st in case['steps'] for a in st['acts']]
+        c.count('stream:' + tag)
+        c.count(mode + ' init:' + ('raised' if isinstance(o.get('init'), str) else 'ok'))
+        for e in o.get('events', []):
+            if 'wake' in e:
+                c.count(mode + ' wake-up')
+            else:
+                a = flat[e['k']]
+                key = mode + ' ' + a[0] + ':' + (a[1] if a[0] in ('set', 'ask') else '')
+                c.count(key + ('!raised' if 'raised' in e else ''))
+            c.evaluations += 1
+        nb = changes_before_wake(case, o)
+        if nb:
+            c.count(mode + ' wake-ups after a change made since the play', nb)
+        if is_nontrivial(case, o):
+            c.nontriv((mode, case))
 
 
 def correspond(ctx):
@@ -329,29 +454,39 @@ def correspond(ctx):
     items, descs = [], []
     for (case, tag), o in zip(tagged, out):
         term, desc = case_term(case, o)
-        flat = [a for st in case['steps'] for a in st['acts']]
-        started = 'raised' not in (o.get('first_play') or {})
-        if not o.get('error') and isinstance(o.get('init'), list) and started and len(o['events']) != len(flat):
-            term = 'Some 0%N'
-            desc = ['driver routine did not complete: %d of %d acts' % (len(o['events']), len(flat))]
+        why = incomplete(case, o)
+        if why:
+            term, desc = 'Some 0%N', [why]
         items.append('(%s)' % term)
         descs.append(desc)
-        c.count('stream:' + tag)
-        c.count('init:' + ('raised' if isinstance(o.get('init'), str) else 'ok'))
-        for a, e in zip(flat, o.get('events', [])):
-            key = a[0] + ':' + (a[1] if a[0] in ('set', 'ask') else '')
-            c.count(key + ('!raised' if 'raised' in e else ''))
-            c.evaluations += 1
-        if is_nontrivial(case, o):
-            c.nontriv(case)
+    tally(c, tagged, out, 'nrt')
+
+    # ---- RT: the same sessions on real clock threads, logical times only (exact, load independent)
+    n_rt = ctx.n(10, 40)
+    rt_tagged = [(gen_case(rng, False, rt=True), 'rt') for _ in range(n_rt)]
+    rt_cases = [t[0] for t in rt_tagged]
+    rt_out = ctx.impl('c12_sessions', {'cases': rt_cases, 'budget': 25}, mode='rt', timeout=120,
+                      extra_env={'SC3_LIB_PORT': str(rt_port(ctx))})['out']
+    for (case, tag), o in zip(rt_tagged, rt_out):
+        term, desc = case_term(case, o, rt=True)
+        why = incomplete(case, o) or rt_first_play_problem(case, o)
+        if why:
+            term, desc = 'Some 0%N', [why]
+        items.append('(%s)' % term)
+        descs.append(desc)
+    tally(c, rt_tagged, rt_out, 'rt')
+    tagged, cases, out = tagged + rt_tagged, cases + rt_cases, out + rt_out
+
     bad, errs = fw.check_shards(ctx, 'sess', HEADER, items, BODY, shard=40)
-    c.rule = ('sessions on the real TempoClock in NRT (constructor and every method called from routines; random histories of '
-              'tempo / etempo / beats / beats_per_bar changes, power-of-two tempi and meters, dyadic beats, int and float arguments, '
-              'all Quant argument shapes) replayed against the regenerated Gallina definitions by vm_compute: state after every setter, '
-              'every returned number and the beat/second at which every played routine first ran compared exactly (type and value). '
-              'evaluations = method calls compared; non-trivial = a session with at least one successful state change followed by '
+    c.rule = ('sessions on the real TempoClock, NRT and RT (constructor and every method called from routines on the clock; random '
+              'histories of tempo / etempo / beats / beats_per_bar changes, power-of-two tempi and meters, dyadic beats, int and float '
+              'arguments, all Quant argument shapes, routines played with a quant at any point and woken after further changes) replayed in '
+              'execution order against the regenerated Gallina definitions and the pending-task model by vm_compute: state after every '
+              'setter, every returned number and the beat/second at which every played routine first ran compared exactly (type and value). '
+              'RT sessions use logical times only (explicit dyadic reference second), so they are exact and independent of load. '
+              'evaluations = observations compared; non-trivial = a session with at least one successful state change and '
               'grid/bar queries that returned numbers')
-    for (case, tag), o in list(zip(tagged, out))[:4]:
+    for (case, tag), o in list(zip(tagged, out))[:3] + list(zip(rt_tagged, rt_out))[:1]:
         c.samples.append({'case': case, 'impl': {'init': o.get('init'), 'events': o.get('events', [])[:3]}})
     for e in errs:
         c.failures.append(Failure('correspondence', 'coq evaluation of sessions failed: ' + e))
@@ -359,16 +494,24 @@ def correspond(ctx):
         k, what = diagnose(ctx, items[i], descs[i])
         c.failures.append(Failure(
             'correspondence',
-            'regenerated model and TempoClock disagree in a %s session at observation %s: %s' % (tagged[i][1], k, what),
-            replay={'case': cases[i], 'impl': out[i], 'first_disagreement': k, 'observation': what}))
+            'model and TempoClock disagree in a %s session at observation %s: %s' % (tagged[i][1], k, what),
+            replay={'mode': 'rt' if tagged[i][1] == 'rt' else 'nrt', 'case': cases[i], 'impl': out[i],
+                    'first_disagreement': k, 'observation': what}))
     return c
 
 
 def search(ctx, failures):
     """Probe the property's laws directly on the real TempoClock (independent of the Coq model)."""
     res = ctx.impl('c12_laws', {'seed': ctx.seed, 'n': ctx.n(150, 1500)}, timeout=900)
+    allbad = list(res['bad'])
+    try:   # the RT-only paths (setters pairing logical beats with seconds; the clock thread's queue keyed by beats)
+        rt = ctx.impl('c12_laws', {'seed': ctx.seed, 'n': ctx.n(8, 24)}, mode='rt', timeout=120,
+                      extra_env={'SC3_LIB_PORT': str(rt_port(ctx, 1))})
+        allbad += rt['bad']
+    except fw.ImplError as e:
+        fw.log('rt law probes failed to run: %s' % e)
     found = []
-    for b in res['bad']:
+    for b in allbad:
         found.append(Failure(
             'search', 'law %s fails on the real TempoClock: %s; history=%s call=%s observed=%s' % (
                 b['law'], b['why'], b['history'], b['call'], b['got']),
